@@ -61,12 +61,14 @@
 
    After a broken ring has been seen in a queue history the rest of that history is skipped
    ("dead"), so that a defect cannot make the driver loop or touch freed memory. */
+#define _POSIX_C_SOURCE 200809L /* alarm(): a library loop that does not terminate must end the run, not hang the check */
 #include "a/list.h"
 #include "a/slist.h"
 #include "a/que.h"
 #include <stdio.h>
 #include <stdlib.h>
 #include <string.h>
+#include <unistd.h>
 
 #define MAXN 64
 
@@ -1234,6 +1236,7 @@ int main(void)
     if (getenv("C05_FLUSH")) { setvbuf(stdout, A_NULL, _IOLBF, 0); }
     while (fgets(line, sizeof(line), stdin))
     {
+        alarm(10); /* watchdog per input line: SIGALRM ends the process, the check restarts after the case */
         char *tok[300];
         int nt = 0, i;
         char *p = strtok(line, " \t\r\n");
